@@ -545,6 +545,43 @@ static void root_in_static_storage(void) {
   del_root(static_root); static_root = NULL;
 }
 
+/* ---------- a run-time type described twice ----------
+** A run-time type is made with one set of instances, used (so that every lookup has happened), and constructed again
+** in place with another set: from then on every class answers with the second description -- with or without the
+** lookup cache. */
+struct Temp { int64_t v; };
+static int64_t TempC_C_Int(var a) { return ((struct Temp*)a)->v; }
+static int64_t TempK_C_Int(var a) { return ((struct Temp*)a)->v + 27315; }
+static uint64_t TempC_Hash(var a) { return (uint64_t)((struct Temp*)a)->v; }
+static uint64_t TempK_Hash(var a) { return (uint64_t)((struct Temp*)a)->v + 27315u; }
+static size_t TempC_Len(var a) { (void)a; return 1; }
+static size_t TempK_Len(var a) { (void)a; return 2; }
+static double TempC_C_Float(var a) { return (double)((struct Temp*)a)->v / 100.0; }
+static double TempK_C_Float(var a) { return (double)(((struct Temp*)a)->v + 27315) / 100.0; }
+static char* TempC_C_Str(var a) { (void)a; return "Celsius"; }
+static char* TempK_C_Str(var a) { (void)a; return "Kelvin"; }
+static var temp_instance(var cls, void* f0) {
+  char* blk = calloc(1, sizeof(struct Header) + 8 * sizeof(var));
+  var inst = header_init(blk, cls, AllocHeap);
+  ((void**)inst)[0] = f0;
+  return inst;
+}
+static void runtime_type_described_twice(void) {
+  static int serial;
+  char nm[24]; snprintf(nm, sizeof nm, "Temp%d", serial++);
+  char* name = strdup(nm);
+  var T = new_root(Type, $S(name), $I(sizeof(struct Temp)), temp_instance(C_Int, (void*)TempC_C_Int), temp_instance(Hash, (void*)TempC_Hash), temp_instance(Len, (void*)TempC_Len),
+                   temp_instance(C_Float, (void*)TempC_C_Float), temp_instance(C_Str, (void*)TempC_C_Str));
+  var x = new_raw_with(T, tuple());
+  ((struct Temp*)x)->v = 2100 + below(500);
+  OUT("first description: %" PRId64 " %" PRIu64 " %zu %.2f %s", c_int(x), hash(x), len(x), c_float(x), c_str(x));
+  construct(T, $S(name), $I(sizeof(struct Temp)), temp_instance(C_Int, (void*)TempK_C_Int), temp_instance(Hash, (void*)TempK_Hash), temp_instance(Len, (void*)TempK_Len),
+            temp_instance(C_Float, (void*)TempK_C_Float), temp_instance(C_Str, (void*)TempK_C_Str));
+  OUT("second description: %" PRId64 " %" PRIu64 " %zu %.2f %s", c_int(x), hash(x), len(x), c_float(x), c_str(x));
+  del_raw(x);
+  del_root(T);
+}
+
 static void files(const char* dir_tag) {
   char path[128]; snprintf(path, sizeof path, "c18-%s.tmp", dir_tag);
   var f = new(File, $S(path), $S("w+"));
@@ -572,7 +609,7 @@ int main(int argc, char** argv) {
   int rounds = 3 + (int)below(3);
   for (int i = 0; i < rounds; i++) {
     OUT("--- round %d", i);
-    sequences(); maps(); strings_and_formats(); exceptions(); values_and_types(); user_types(); embedded_strings(); thread_storage(); pooled_objects(); owners_left_to_the_collector(); views_over_unshared_inputs(); root_in_static_storage(); files(tag);
+    sequences(); maps(); strings_and_formats(); exceptions(); values_and_types(); user_types(); embedded_strings(); thread_storage(); pooled_objects(); owners_left_to_the_collector(); views_over_unshared_inputs(); root_in_static_storage(); runtime_type_described_twice(); files(tag);
   }
   OUT("done");
   return 0;
